@@ -1,5 +1,6 @@
 import MtailVerif.Proofs.Runtime
 import MtailVerif.Generated.Runtime
+import MtailVerif.Proofs.Skeletons
 /-! # C26 — Program directory scanning loads exactly the eligible files -/
 namespace MtailVerif.C26
 open MtailVerif MtailVerif.Runtime
@@ -118,5 +119,11 @@ theorem broken_keeps_previous (cfg : Cfg) (r : RT) (name : Bytes) (v : Version)
 theorem unloaded_has_no_handle (r : RT) (name : Bytes) :
     (unload r name).handles.find? (·.1 = name) = none := by
   simp [unload, List.find?_eq_none]
+
+/-! ### regenerated control skeletons (written by lib/wire_skeletons.py) -/
+/-- Obligations over regenerated facts: the functions this property's model stands for have the
+    control skeleton the model was written against (`Proofs/Skeletons.lean`, one `rfl` per function
+    or clause; DESIGN.md §11.6a) -/
+theorem loader_skeletons : Skeletons.LoaderShape := Skeletons.loader_shape
 
 end MtailVerif.C26
